@@ -120,6 +120,24 @@ class Translator:
             self._tcache[k] = r
         return r[1]
 
+    def lhs_targets(self, lhs):
+        if isinstance(lhs, Signal):
+            return frozenset([lhs])
+        k = ("lhs", id(lhs))
+        r = self._tcache.get(k)
+        if r is None:
+            if isinstance(lhs, (_Slice, _Part)):
+                t = self.lhs_targets(lhs.value)
+            elif isinstance(lhs, Cat):
+                t = frozenset().union(*[self.lhs_targets(e) for e in lhs.l])
+            elif isinstance(lhs, _ArrayProxy):
+                t = frozenset().union(*[self.lhs_targets(e) for e in lhs.choices])
+            else:
+                raise ExtractionError("unsupported assignment target %r" % type(lhs))
+            r = (lhs, t)
+            self._tcache[k] = r
+        return r[1]
+
     def reset_value(self, sig):
         return bvconst(sig.reset.value, sig.nbits)
 
@@ -373,7 +391,7 @@ class Frame:
                 off += n
         elif isinstance(lhs, _Slice):
             tgt = lhs.value
-            if only is not None and self.tr.targets(lhs).isdisjoint(only):
+            if only is not None and self.tr.lhs_targets(lhs).isdisjoint(only):
                 return
             n = len(tgt)
             cur = ext(self.ev_target(tgt, local), n)
